@@ -340,6 +340,11 @@ fault("C20.collect-always", "C20", GR, "                        if rhs_elem.fqn 
 fault("C20.fqn-name-only", "C20", GR, "    @property\n    def fqn(self):\n        if self.imported_with:\n            return f\"{self.imported_with.fqn}.{self.name}\"\n        return self.name\n\n    @property\n    def action_fqn", "    @property\n    def fqn(self):\n        return self.name\n\n    @property\n    def action_fqn", "R20.resolution")
 benign("C20.b-registry-get", "C20", GR, "            if self.file_path in self.grammar.imported_files:\n                self.pgfile = self.grammar.imported_files[self.file_path]\n            else:",
        "            if self.file_path in self.grammar.imported_files:\n                self.pgfile = self.grammar.imported_files[self.file_path]\n            else:  # not loaded yet")
+fault("C20.no-nonterminal-unify", "C20", GR, "                        else:\n                            # Unify non-terminals\n                            production.rhs[idx] = self.nonterminals[rhs_elem.fqn]\n", "", "R20.collect-once")
+fault("C20.unify-inline-only", "C20", GR, "                        else:\n                            # Unify terminals\n", "                        elif rhs_elem.imported_with is None:\n", "R20.collect-once")
+fault("C20.lookup-sep-fqn", "C20", GR, "            self.separator.name if self.separator else None,\n            self.greedy,", "            self.separator.fqn if self.separator else None,\n            self.greedy,", "R13.name-key")
+benign("C20.b-unify-in", "C20", GR, "                        if rhs_elem.fqn not in self.terminals:\n                            self.terminals[rhs_elem.fqn] = rhs_elem\n                        else:\n                            # Unify terminals\n                            production.rhs[idx] = self.terminals[rhs_elem.fqn]",
+       "                        if rhs_elem.fqn in self.terminals:\n                            production.rhs[idx] = self.terminals[rhs_elem.fqn]\n                        else:\n                            self.terminals[rhs_elem.fqn] = rhs_elem")
 
 # ---------------------------------------------------------------- C11
 fault("C11.bound-ne", "C11", P, "        while head.position < len(head.input_str):\n            head.position += 1", "        while head.position != len(head.input_str):\n            head.position += 1", "R11.progress")
